@@ -5,27 +5,41 @@ PROP = dict(
                  env=dict(quick=dict(VERIF_CASES=300), thorough=dict(VERIF_CASES=6000))),
             dict(name="dutch-v2", go_test="TestC10", runner="C10",
                  env=dict(quick=dict(VERIF_CASES=250), thorough=dict(VERIF_CASES=5000))),
+            dict(name="dutch-v1", go_test="TestC10V1", runner="C10-v1",
+                 env=dict(quick=dict(VERIF_CASES=150), thorough=dict(VERIF_CASES=3000))),
+            dict(name="dutch-v1-lend", go_test="TestC10V1Lend", runner="C10-v1",
+                 env=dict(quick=dict(VERIF_CASES=100), thorough=dict(VERIF_CASES=2000))),
         ],
         rule="dutch-price: case = (premium, end factor, duration, oracle price) from a lattice plus random durations/factors; every "
              "case posts the price through the real UpdateDutchAuction at t = 0, 1, D-1, D and 4-11 random instants and calls "
              "GetPriceFromLinearDecreaseFunction directly on 3 random (tau, t); non-trivial = the price moved. "
-             "dutch-v2: case = auction/whitelisting parameters, two positions (vault via MsgLiquidateInternalKeeper, vault via "
+             "dutch-v2: cases 0-3 = corpus (regression inputs of the repaired C10-F3 / C10-F2: external auction with keeper incentive closed by a full bid; collateral-exhausted close against a reserve of 1000; the same with a big reserve; two external auctions closed by exact / over-sized bids), then generated: case = auction/whitelisting parameters, two positions (vault via MsgLiquidateInternalKeeper, vault via "
              "LiquidateIndividualVault, external via MsgLiquidateExternalKeeper) seized through the real liquidation path, app reserve "
              "none/tiny/big, then 4-15 ops: MsgPlaceMarketBid by 3 bidders (1 unit, small, 1-99 % of the remaining debt, exact, "
              "exact-1, exact+1, 3x, leaving dust, wrong denom, zero, one poor bidder), auctionsV2.BeginBlocker ticks (dt 0, 1, 5, D/4, "
              "D/2, exactly to EndTime, EndTime+1, >2D) with oracle prices moving / going inactive, start of the second auction; "
-             "non-trivial = at least one bid succeeded; distinct by digest of parameters and op sequence",
+             "non-trivial = at least one bid succeeded; distinct by digest of parameters and op sequence. "
+             "dutch-v1: case = x/auction parameters (buffer, cusp, duration), extended pair (penalty, closing fee, dust, fixed or oracle debt price), "
+             "asset Decimals, collector net fees none/tiny/big, two vaults created through MsgCreate and seized by the real "
+             "x/liquidation LiquidateVaults after a price drop, then 4-15 ops: MsgPlaceDutchBid by 3 bidders (collateral amounts: 1 unit, small, "
+             "1-99 % of the remaining collateral or of the amount that fills the target, exactly / one off / twice that amount, all, all-1, "
+             "all+1, leaving dust, wrong denom, zero, one poor bidder), auction.BeginBlocker ticks with oracle prices moving / inactive; "
+             "non-trivial = at least one bid succeeded. "
+             "dutch-v1-lend: case = lend auction parameters (buffer, cusp, duration), collateral asset rates (penalty, bonus), pair dust, "
+             "Decimals, lend reserve none/tiny/big, two borrow positions opened through MsgBorrowAlternate and seized by the real "
+             "x/liquidation LiquidateBorrows after a collateral price drop (re-liquidations inside a closing bid are picked up too), then the same "
+             "bid / tick mix through MsgPlaceDutchLendBid; non-trivial = at least one bid succeeded",
         modelled=["liquidation itself (LockedVault fields and the collateral transfer are taken from the implementation at each start op)",
                   "bank keeper as a ledger over the named accounts", "ESM branch of AuctionIterator and limit-order auto bids are not driven",
                   "lend-initiated close only as the transfer of TargetDebt to the pool module (not driven by the harness)",
-                  "generation 1 (x/auction): price path only (Model/DutchV1.v, same arithmetic as generation 2), not driven by the harness; its bid path and close are not modelled",
-                  "numeric rounding bound of GetAmountOfOtherToken against the exact rational: evaluated by holds_C10_bid on every observed bid, not proved"],
+                  "generation 1 (x/auction): vault and lend bid path, close and price update modelled (Model/DutchV1.v); not modelled: the ESM branch of RestartDutchAuctions, UpdateProtocolData / locked-vault history book-keeping, UnLiquidateLockedBorrows after a lend close",
+                  "c10_bid_price / c10_conv_bounds assume asset Decimals <= 10^18 and prices of at least 10^-18 uusd per smallest unit (Decimals <= price as a Dec integer)"],
         assumptions=["block times are whole seconds and non-decreasing", "oracle prices below 2^63", "asset Decimals and prices positive"],
     )
 
 MANIFEST = dict(
-    level_text="Generation-2 Dutch auction (x/auctionsV2) modelled statement by statement with exact sdk.Dec arithmetic. Proved for all inputs: the posted price is non-increasing between restarts, at most the start price and non-negative; totals over any bid/tick history (paid <= target debt, received <= collateral); per-bid price bound; close completeness per initiator type. The end-price clause is proved refuted (truncated time-to-zero) and proved on the complement of the executable class; two further defects (reserve top-up silently skipped, external close panics on the empty keeper address) are delimited by executable classes and reproduced on the real keepers. The model is tied to /repo by a differential run of the real liquidation path, MsgPlaceMarketBid and auctionsV2.BeginBlocker on every check.",
+    level_text="Both auction generations. Generation-2 Dutch auction (x/auctionsV2) modelled statement by statement with exact sdk.Dec arithmetic. Proved for all inputs: the posted price is non-increasing between restarts, at most the start price and non-negative; totals over any bid/tick history (paid <= target debt, received <= collateral); per-bid amounts. Proved for every closing bid without exception class: close completeness per initiator type incl. the external keeper incentive, and that the app reserve is debited exactly the shortfall, only when it covers it, and stays backed. The end-price clause is proved refuted (truncated time-to-zero, known finding C10-F1) and proved on the complement of the executable class. The two further defects found on the original tree (reserve top-up silently skipped: C10-F2; external close panics on the empty keeper address: C10-F3) are repaired by fixes/C10-F2 and fixes/C10-F3; the model follows the repaired code, their witnesses stay in the harness corpus and as Examples, and a recurrence is reported as a plain violation. Generation 1 (x/auction dutch.go, dutch_lend.go): totals by induction over any bid/tick history without price assumptions, per-bid price predicate, close completeness for vault and lend auctions; custody over any history; the end-price finding C10-F1 is the same arithmetic and reproduces there; for lend auctions the custody clause is proved refuted (unpaid bonus stranded in the module account, known finding C10-F4) and proved on the complement of the executable class. The models are tied to /repo by differential runs of the real liquidation paths, MsgPlaceMarketBid / MsgPlaceDutchBid and the two BeginBlockers on every check.",
     design_ref="DESIGN.md section 4 C10",
-    level_note="Trusted: Coq kernel, extraction (ExtrOcamlBasic), OCaml runner, Go harness. Generation 1 (x/auction) is modelled for the price function and the bid arithmetic only. No axioms (Closed under the global context).",
+    level_note="Trusted: Coq kernel, extraction (ExtrOcamlBasic), OCaml runner, Go harness. Generation 1 (x/auction) vault and lend Dutch auctions are modelled too (bid, close, price update) and the vault ones are driven through the real x/liquidation and x/auction keepers. No axioms (Closed under the global context).",
     technique="Coq proof (monotonicity of Dec arithmetic, invariants by induction over bid/tick histories) + model/implementation correspondence run",
 )
